@@ -106,6 +106,9 @@ def run(ctx, rep):
     from . import c07
     m_ = ctx.func(T.MINIMIZE)
     c07.r71_r73(ctx, Renamed(rep, to="R9.7"), m_, ctx.func(T.BUILD_RESULT), c07.enum_members(ctx))
+    rep.rule("R9.9", "the tolerance / target used by the stop tests is the one the selection of the returned point uses: one option key per value (see C19 R19.9)")
+    from . import c19 as _c19
+    _c19.r199(ctx, Renamed(rep, to="R9.9"), m_, _c19.enum_tables(ctx), rule="R9.9")
     rep.rule("R9.8", "nfev at a stop is the index of the triggering evaluation: the counter counts every evaluation (see C05 R5.2)")
     from . import c05 as _c05
     _c05.r52(ctx, Renamed(rep, to="R9.8"))
